@@ -38,6 +38,11 @@ func init() {
 					R.decide("C13.c", kNewPS+":splitter-params", "the structure takes its number of squares and ld from the splitter that will produce them", ok, "", P.Pos(fn.Pos()))
 				}
 			}},
+		Rule{ID: "C13.e", Explain: "no over-rejection: the proving call tree refuses a statement only for the specified reasons (false statement, unsupported sign, size limits of the descriptor) and the verification call tree rejects only for the specified reasons.",
+			Run: func(P *Program, R *Report) {
+				treeRejectionsRule(P, R, "C13.e", "prove", "the proving call tree")
+				treeRejectionsRule(P, R, "C13.e", "show", "the verification call tree")
+			}},
 		Rule{ID: "C13.d", Explain: "CreateDisclosureProofBuilder refuses range statements on disclosed attributes and files every accepted statement's structure under its attribute index; Commit commits every filed structure with the attribute and randomiser of that index.",
 			Run: func(P *Program, R *Report) { statementFilingRule(P, R) }},
 	)
